@@ -161,6 +161,9 @@ type zvC34Case struct {
 	V     []int  `json:"fields"` // index into each field's domain, in zvC34Fields order
 	Dedup bool   `json:"dedup"`
 	Desc  string `json:"desc,omitempty"`
+	// Prev: a route converted (same dedup setting) just before this one, in the same process, starting from an empty
+	// attribute cache: conversions must not influence each other, and the earlier result must not change afterwards
+	Prev []int `json:"converted_before,omitempty"`
 }
 
 func zvC34BGPPath(v []int) *Path {
@@ -394,6 +397,20 @@ func zvC34One(r *vh.Run, c zvC34Case) {
 	}
 	c.Desc = zvC34Describe(c.V)
 	dd := fmt.Sprint(c.Dedup)
+	// every case starts from an empty process-global attribute cache: a verdict is a function of the case alone
+	ZZVerifResetBGPPathACache()
+	var prevBack *Route
+	var prevWant *zvC34Obs
+	if c.Prev != nil {
+		c.Desc = "after " + zvC34Describe(c.Prev) + ": " + c.Desc
+		pin := zvC34Build(c.Prev)
+		if p, what := vh.Try(func() { prevBack = RouteFromProtoRoute(pin.ToProto(), c.Dedup) }); p {
+			r.Violation(vh.Sig("clause", "panic", "stage", "earlier_conversion"), c, "conversion of the earlier route panicked: %s", what)
+			return
+		}
+		prevWant = zvC34Observe(prevBack)
+		r.Count("sequences_of_two", 1)
+	}
 	in := zvC34Build(c.V)
 	want := zvC34Observe(in)
 	r.Eval(1)
@@ -439,6 +456,21 @@ func zvC34One(r *vh.Run, c zvC34Case) {
 				field = k[i+1:]
 			}
 			r.Violation(vh.Sig("clause", "field", "field", field), c, "%s: after ToProto/RouteFromProtoRoute(dedup=%s) = %s, before = %s", k, dd, g, w)
+		}
+	}
+	if prevBack != nil {
+		if again := zvC34Observe(prevBack); fmt.Sprint(again.fields) != fmt.Sprint(prevWant.fields) {
+			field := "?"
+			for _, k := range prevWant.order {
+				if again.fields[k] != prevWant.fields[k] {
+					field = k
+					if i := strings.IndexByte(k, '.'); i >= 0 {
+						field = k[i+1:]
+					}
+					break
+				}
+			}
+			r.Violation(vh.Sig("clause", "earlier_result_changed", "field", field), c, "the route converted earlier (dedup=%s) changed when this route was converted: before %v after %v", dd, prevWant.fields, again.fields)
 		}
 	}
 	for i, h := range want.hidden {
@@ -545,13 +577,13 @@ func TestVerifC34(t *testing.T) {
 	r.Rule("routes = 2 backgrounds (bare: all attributes zero/absent; rich: all present) x (every field over its domain + every pair of the 21 fields over both domains" +
 		" [thorough: + every triple of the 8 list-typed/structural fields]) x dedup{false,true}; fields: prefix(7, v4+v6), path type{static,BGP}, every HiddenReason constant 0..7," +
 		" second path{none,static,hidden BGP,same attrs other path id}, next hop/source(7 addresses), scalars{0,1,65536,max}, origin{0,1,2,255}, AS path(nil,empty,seq,set+seq,...;7)," +
-		" communities/large communities/cluster list{nil,empty,1,3}, unknown attributes{nil,empty,1,3,one 300-byte}; distinct non-trivial = distinct input observations")
-	r.Require("hidden_checked", "static_path", "bgp_path", "list_nil", "list_empty", "list_nonempty", "cluster_list_nonempty", "as_path_nil", "two_paths", "dedup_on")
+		" communities/large communities/cluster list{nil,empty,1,3}, unknown attributes{nil,empty,1,3,one 300-byte}; plus every ordered pair of (background, one field varied) routes converted one after the other from an empty attribute cache (the second conversion is checked, the first result must not change); distinct non-trivial = distinct input observations")
+	r.Require("hidden_checked", "static_path", "bgp_path", "list_nil", "list_empty", "list_nonempty", "cluster_list_nonempty", "as_path_nil", "two_paths", "dedup_on", "sequences_of_two")
 	if r.IsReplay() {
 		var c zvC34Case
 		r.ReplayCase(&c)
 		zvC34One(r, c)
-		for _, k := range []string{"hidden_checked", "static_path", "bgp_path", "list_nil", "list_empty", "list_nonempty", "cluster_list_nonempty", "as_path_nil", "two_paths", "dedup_on"} {
+		for _, k := range []string{"hidden_checked", "static_path", "bgp_path", "list_nil", "list_empty", "list_nonempty", "cluster_list_nonempty", "as_path_nil", "two_paths", "dedup_on", "sequences_of_two"} {
 			r.Count(k, 1)
 		}
 		return
@@ -580,4 +612,36 @@ func TestVerifC34(t *testing.T) {
 		}
 	})
 	r.Extra("vectors_total", idx)
+	// sequences of two conversions: every ordered pair of (background with one field varied) routes, dedup on and off
+	var singles [][]int
+	seen := map[string]bool{}
+	for _, bg := range zvC34Backgrounds() {
+		for a := 0; a < zvC34NFields; a++ {
+			for ia := 0; ia < zvC34Fields[a].n; ia++ {
+				v := append([]int(nil), bg...)
+				v[a] = ia
+				if k := fmt.Sprint(v); !seen[k] {
+					seen[k] = true
+					singles = append(singles, v)
+				}
+			}
+		}
+	}
+	r.Extra("sequence_routes", len(singles))
+	for _, a := range singles {
+		for _, b := range singles {
+			idx++
+			if !r.Mine(idx) {
+				continue
+			}
+			if idx%256 == 0 && r.OutOfBudget() {
+				r.Cap("time budget: not all sequences of two conversions run")
+				return
+			}
+			zvC34One(r, zvC34Case{V: b, Prev: a, Dedup: true})
+			if r.Thorough() {
+				zvC34One(r, zvC34Case{V: b, Prev: a, Dedup: false})
+			}
+		}
+	}
 }
